@@ -30,6 +30,11 @@ def transparent(f, e):
     if k == "param":
         return True
     if k == "load":
+        base = e[1]
+        while isinstance(base, tuple) and base and base[0] == "field":
+            base = base[1]  # a closure's captured `self`
+        if tuple(e[2]) in guards._DRAIN_FIELDS and isinstance(base, tuple) and base[0] == "param":
+            return True  # Drain's index fields: their invariant is an axiom of the Zone
         return e[2] in (("size",), ("start",)) and isinstance(e[1], tuple) and e[1][0] == "param"
     if k == "binop":
         return e[1] in ("Add", "Sub") and transparent(f, e[2]) and transparent(f, e[3])
@@ -133,14 +138,18 @@ def run(prog, which="SUB1"):
     return eng
 
 
-def report(ctx, prog, cfg, rule="SUB1", floor=30):
+def report(ctx, prog, cfg, rule="SUB1", floor=30, only=None):
     eng = run(prog, rule)
     n_ok = 0
     for (fn, site, by) in eng.discharged:
+        if only is not None and not only(fn):
+            continue
         ctx.ok(rule, fn, site, by, cfg)
         n_ok += 1
     undecided = []
     for (fn, b, r, reason) in eng.failures:
+        if only is not None and not (only(fn) or only(r.chain[0][0])):
+            continue
         f = prog.fns.get(fn)
         if transparent(f, r.atom[1]) and transparent(f, r.atom[2]) and _pieces(r.atom) <= 1:
             origin = r.chain[0]
@@ -151,6 +160,7 @@ def report(ctx, prog, cfg, rule="SUB1", floor=30):
                         "the slice index / split panics"), cfg, detail="path: " + path)
         else:
             undecided.append("%s: %s [%s]" % (fn, requires.fmt_atom(r.atom, f)[:120], r.chain[0][0]))
-    ctx.floor(rule, "subtractions proved not to underflow" if rule == "SUB1" else "range-index / split obligations proved", n_ok, floor, cfg)
+    if floor:
+        ctx.floor(rule, "subtractions proved not to underflow" if rule == "SUB1" else "range-index / split obligations proved", n_ok, floor, cfg)
     ctx.extra.setdefault(rule.lower(), {})[cfg] = {"sites": eng.sites, "discharged": n_ok, "undecided_opaque": sorted(set(undecided))}
     return eng
